@@ -1384,14 +1384,14 @@ func C05() *check.Property {
 		Title:    "Multi-source operators honour every arrival order of their inputs",
 		Patterns: CorePatterns,
 		Scope:    []string{ro},
-		Rules:    []check.Rule{ruleInnerTerminalBeforeDestination(), ruleCompletionCounted(), ruleErrPropagation(), ruleArity(), ruleNoPrematureRelease(), ruleRaceLateLoser(), ruleComposition(), ruleSequentialInnerGuard(), ruleOuterCompleteWaitsInner(), ruleTerminalPropagation(), ruleObservableParamUsed(), ruleQueueFIFO(), rulePublishBeforeEmit(), ruleConsumeFlag(), ruleStateLevel(), ruleSlotGuardAgreement(), ruleAddAfterClose(), ruleTerminalCallAgreement(), ruleAccessGuarded(), ruleSubjectDelivers(), ruleSubjectBroadcastLocked(), ruleInnerFilledBeforeHandover(), ruleNoDuplicateForward(), ruleGetOrCreate(), ruleAtomicPointeeImmutable()},
+		Rules:    []check.Rule{ruleInnerTerminalBeforeDestination(), ruleInnerTerminated(), ruleCompletionCounted(), ruleErrPropagation(), ruleArity(), ruleNoPrematureRelease(), ruleRaceLateLoser(), ruleComposition(), ruleSequentialInnerGuard(), ruleOuterCompleteWaitsInner(), ruleTerminalPropagation(), ruleObservableParamUsed(), ruleQueueFIFO(), rulePublishBeforeEmit(), ruleConsumeFlag(), ruleStateLevel(), ruleSlotGuardAgreement(), ruleAddAfterClose(), ruleTerminalCallAgreement(), ruleAccessGuarded(), ruleSubjectDelivers(), ruleSubjectBroadcastLocked(), ruleInnerFilledBeforeHandover(), ruleNoDuplicateForward(), ruleGetOrCreate(), ruleAtomicPointeeImmutable()},
 		Explanation: "Narrow structural claim. Arrival orders are run-time histories and are NOT decided. Two necessary conditions are: ERR-PROPAGATION — 'an error from any source ends the output at once': for every upstream subscribe site of every operator " +
 			"(multi-source ones included) the observer's error slot reaches an Error notification to the destination, or the operator's definition consumes the error (listed with reasons); partial observers that swallow errors are reported. NO-PREMATURE-RELEASE — 'nothing is lost, completion comes when the definition says': inside a notification slot of one source the other sources are unsubscribed only on paths that also terminate the output. ARITY — the fixed-arity " +
 			"CombineLatestWithK/ZipWithK families subscribe K+1 distinct sources, build K+1-tuples from K+1 distinct variables and (CombineLatest) use only counter constants consistent with K+1 sources.",
 		NotDecided:  "the output assigned to each interleaving (ordering, completion timing, loss/duplication) for merge, concat, combine-latest, zip, race, buffer/window/sample/throttle-when, group-by, flat-map — in particular ZipAll's early outer completion (DESIGN.md section 7) is outside these rules.",
 		Assumptions: []string{"the destination's subscriber closes on the first terminal notification (C01) and its teardown releases the other sources (C03)"},
 		Floors:      map[string]int{"sites_checked": 140, "sites_of_multi_source_operators": 50, "sibling_releases_in_slots": 30, "complete_slots_checked": 120, "counting_complete_slots": 14, "counted_completes": 14},
-		Controls:    map[string]string{"zz_verif_controls_c05.go": roControl(controlsC05 + controlsInnerTerminal), "zz_verif_controls_c12.go": roControl(controlsC12), "zz_verif_controls_access.go": roControl(controlsAccessGuard), "zz_verif_controls_atomicptr.go": roControl(controlsAtomicPointee), "zz_verif_controls_c05c.go": roControl(controlsC05c + controlsC05d)},
+		Controls:    map[string]string{"zz_verif_controls_c05.go": roControl(controlsC05 + controlsInnerTerminal + controlsInnerTerminated), "zz_verif_controls_c12.go": roControl(controlsC12), "zz_verif_controls_access.go": roControl(controlsAccessGuard), "zz_verif_controls_atomicptr.go": roControl(controlsAtomicPointee), "zz_verif_controls_c05c.go": roControl(controlsC05c + controlsC05d)},
 	}
 }
 
